@@ -82,6 +82,8 @@ func workerMain() {
 			outs = runForcedRobust(parts[0], parts[1:])
 		case "stress":
 			outs = runStress(parts[1:])
+		case "burst":
+			outs = runBurst(parts[1:])
 		default:
 			outs = []string{"UNKNOWN-KIND"}
 		}
